@@ -17,6 +17,9 @@ CODES = {
     2: ("model", "method_of_equal_shares returns a different set than the model of the code (Model/MesRule.v)"),
     3: ("model", "model or spec ran out of fuel"),
     4: ("oracle", "an allocation lists a project twice or a project that is not in the instance"),
+    5: ("oracle", "refuse_tie_breaking: TieBreakingException raised although no round of the textbook procedure has two "
+                  "tied candidates (supported free projects are selected unconditionally), or not raised although one has"),
+    6: ("model", "refuse_tie_breaking: raise / no raise differs from the model of the code"),
     core.RAISED: ("oracle", "the call raised / the interpreter died outside the solver"),
 }
 RULE = ("elections with 1..6 voters, 1..7 projects; costs from tie-rich pools incl. zero, fractional, equal blocks, one "
@@ -52,6 +55,8 @@ def gen(rng, i, tier):
         return mesgen.gen_stale(rng)
     if i % 10 == 6:     # targeted stream: money within 1e-7..1e-15 of rho*utility / of the cost / of another rho
         return mesgen.gen_near(rng)
+    if i % 20 == 8:     # targeted stream: several supported free projects, refuse_tie_breaking
+        return mesgen.gen_free(rng)
     if i % 20 == 3:     # targeted stream: nothing to share + supported zero-cost projects
         return mesgen.gen_boundary(rng)
     if i % 20 == 13:    # targeted stream: app_score tie-breaking on a multiprofile, exact rho tie
@@ -71,7 +76,16 @@ def impl(case):
         if st["faults"]:
             out["solver_fault"] = st["last_fault"]
             return out
-    res = mesgen.call_rule(case, inst, prof, cls, sp, rule)
+    out["raised"] = False
+    try:
+        res = mesgen.call_rule(case, inst, prof, cls, sp, rule)
+    except Exception as e:  # noqa
+        if case["tb"] == "refuse" and type(e).__name__ == "TieBreakingException":
+            out["raised"] = True
+            out["out"] = []
+            out["flags"] = mesgen.measure(case, utils, mults, keys)
+            return out
+        raise
     if case.get("resolute", True):
         out["out"] = [pb.ranks(res)]
     else:
@@ -82,10 +96,11 @@ def impl(case):
 
 def coq_case(case, o):
     voters = lst([pair(core.qlist(u), core.nat(m)) for u, m in zip(o["utils"], o["mults"])])
-    return "(mkCase %s %s %s %s %s %s %s %s %s %s)" % (
+    return "(mkCase %s %s %s %s %s %s %s %s %s %s %s %s)" % (
         core.qlist(case["costs"]), q(case["budget"]), voters, core.qlist(o["keys"]), natl(case["enum"]),
         boolc(mesgen.resolved_binary(case)), natl(case.get("init", [])), boolc(case.get("resolute", True)),
-        opt(case.get("inc"), q), lst([natl(W) for W in o["out"]]))
+        opt(case.get("inc"), q), lst([natl(W) for W in o["out"]]), boolc(case["tb"] == "refuse"),
+        boolc(o.get("raised", False)))
 
 
 def nontrivial(case, o):
@@ -112,6 +127,12 @@ def stats(cases, obs):
         d["multi"] += bool(c["multi"])
         d["stale_state_stream"] = d.get("stale_state_stream", 0) + (c.get("stream") == "stale")
         d["boundary_stream"] = d.get("boundary_stream", 0) + (c.get("stream") == "boundary")
+        d["free_projects_stream"] = d.get("free_projects_stream", 0) + (c.get("stream") == "free")
+        if c["tb"] == "refuse":
+            d["refuse_raised"] = d.get("refuse_raised", 0) + bool(o.get("raised"))
+            d["refuse_not_raised"] = d.get("refuse_not_raised", 0) + (not o.get("raised"))
+            d["refuse_not_raised_with_2_free"] = d.get("refuse_not_raised_with_2_free", 0) + (
+                not o.get("raised") and sum(1 for x in c["costs"] if pb.F(x) == 0) >= 2)
         d["near_boundary_stream"] = d.get("near_boundary_stream", 0) + (c.get("stream") == "near")
         for k_ in ("near_poor", "near_rich", "exact_boundary", "near_tie", "near_afford", "bigmult"):
             d["cases_" + k_] = d.get("cases_" + k_, 0) + bool(o["flags"].get(k_))
